@@ -328,6 +328,16 @@ func applyMut(typ string, p val.V, m Mut) (val.V, string, bool) {
 			val.List(val.List(val.Int(1), val.Str(".a"), val.Int(1))),
 			val.List(val.List(val.Str("=="), val.Str(`.a["x`), val.Int(1))),
 		}
+		// integers of a policy that sit INSIDE a selector text - an index, the bounds of a slice - are policy integers
+		// like the literals are: outside +/-(2^53-1) the policy is not well formed (at and beyond each edge: 2^53,
+		// -2^53, the int64 limits, 20 digits), in every position a selector has in a statement
+		for _, n := range []string{"9007199254740992", "-9007199254740992", "9007199254740993", "-9007199254740993", "9223372036854775807", "-9223372036854775808", "99999999999999999999", "-99999999999999999999"} {
+			for _, sl := range []string{".[" + n + "]", ".[" + n + "]?", ".a[" + n + ":]", ".[:" + n + "]", ".a[1:" + n + "]?", ".[" + n + ":" + n + "]"} {
+				bad = append(bad, val.List(val.List(val.Str("=="), val.Str(sl), val.Int(1))),
+					val.List(val.List(val.Str("any"), val.Str(sl), val.List(val.Str("=="), val.Str("."), val.Int(1)))),
+					val.List(val.List(val.Str("not"), val.List(val.Str("like"), val.Str(sl), val.Str("*")))))
+			}
+		}
 		set(bad[m.N%len(bad)])
 		return out, "reject", true
 	case "nested-bigint":
@@ -777,6 +787,9 @@ func TestPayloadProduct(t *testing.T) {
 				nmax := 12
 				if k == "nested-bigint" {
 					nmax = len(bigInts) * len(polCores) * len(polShapes)
+				}
+				if k == "bad-policy" {
+					nmax = 11 + 8*6*3
 				}
 				for n := 0; n < nmax; n++ {
 					payProp.One(t, PayCase{Type: typ, Muts: []Mut{{Field: f, Kind: k, N: n}}})
